@@ -107,3 +107,15 @@ def fresh_instance():
 def drop_instance(lib):
     for k in [k for k in sys.modules if k == lib.pkgname or k.startswith(lib.pkgname + ".")]:
         del sys.modules[k]
+
+
+def fs_names(names):
+    """file names the current filesystem encoding can express (a shard may run under LC_ALL=C without UTF-8 mode)"""
+    out = []
+    for n in names:
+        try:
+            os.fsencode(n)
+            out.append(n)
+        except (UnicodeEncodeError, ValueError):
+            pass
+    return out or ["plain"]
